@@ -401,9 +401,11 @@ class FileInfo(os.PathLike):
     def to_json_dict(self):
         return {
             "path": self.path,
+            # strftime("%Y") does not zero-pad years below 1000 on all
+            # platforms, but from_json_dict needs four digits:
             "times": [
-                self.times[0].strftime("%Y-%m-%dT%H:%M:%S.%f"),
-                self.times[1].strftime("%Y-%m-%dT%H:%M:%S.%f")
+                f"{time.year:04d}" + time.strftime("-%m-%dT%H:%M:%S.%f")
+                for time in self.times
             ],
             "attr": self.attr,
         }
